@@ -69,8 +69,11 @@ def t_specs(ctx, rng, first_id, dups=0.0):
         lev, fee = confs[i % len(confs)]
         nsym = 1 if (i // len(confs)) % 2 == 0 else 2
         syms = ["A", "B"][:nsym]
-        hdr = {"syms": syms, "FeeNum": fee[0], "FeeDen": fee[1], "Lev": lev, "Start": rng.choice([60, 100, 200]),
-               "CancelOnClose": True, "cur0": {s: rng.choice([8, 10, 12]) for s in syms}}
+        # every third history uses decimal quantities 0.1 / 0.2 / 0.3 (QD = 10: not representable in binary; the
+        # account is homogeneous in the quantity scale, so TLC sees quantity x 10 and money x 10)
+        qd = 10 if i % 3 == 2 else 1
+        hdr = {"syms": syms, "FeeNum": fee[0], "FeeDen": fee[1], "Lev": lev, "Start": rng.choice([60, 100, 200]) // qd,
+               "CancelOnClose": True, "cur0": {s: rng.choice([8, 10, 12]) for s in syms}, "QD": qd}
         specs.append((first_id + i, hdr, rng.randrange(10 ** 9), rng.randint(30, 60), dups))
     return specs
 
@@ -80,7 +83,7 @@ def run(ctx):
     ctx.assumptions += [
         "object-level sessions: real Order/Position/FuturesExchange/OrdersState/ClosedTrades/Sandbox objects, the "
         "position's strategy is a stub that cancels everything resting when the position closes (quantifier of C03)",
-        "exact lattice: integer quantities and prices, fee in {0, 1/16, 1/64}; cross margin mode",
+        "exact lattice: integer prices, quantities 1/2/3 or 0.1/0.2/0.3 (logged x 10), fee in {0, 1/16, 1/64}; cross margin mode",
         "random histories keep |position| + resting same-side quantity <= 6 and entry denominators dividing 60 "
         "(32-bit rationals in TLC); at most 7 simultaneously resting orders per symbol"]
     samples = []
